@@ -121,6 +121,21 @@ def _syn_expand(p, cap=20000):
         return None
 
 
+def _unescaped_meta(v):
+    """the variant text contains an unescaped [ ] { } or ends in a dangling backslash"""
+    k = 0
+    while k < len(v):
+        if v[k] == "\\":
+            if k + 1 >= len(v):
+                return True
+            k += 2
+            continue
+        if v[k] in "[]{}":
+            return True
+        k += 1
+    return False
+
+
 def classify(case):
     i = case.get("input") or {}
     o = case.get("observed") or {}
@@ -137,6 +152,9 @@ def classify(case):
         return None          # a count failure is never a known finding
     bad = [p for p in (o.get("paths") or []) if p["orig"] != any(p["var"] or [])]
     if not bad:
+        return None
+    # a rendered variant with an unescaped bracket/brace, or one that is not itself a stable pattern, is a different failure
+    if not o.get("variants_stable", False) or any(_unescaped_meta(v) for v in (o.get("variants") or [])):
         return None
     # the recorded classes are about HOW an expansion is matched/rendered. A variant set that lacks (or adds) an alternative
     # of the syntactic expansion of the pattern text is a different failure and is never a known finding.
@@ -164,6 +182,9 @@ SPEC = dict(
           "5 fixed + every 10th random case from the nested-group family {{X},{X,y}} / {{X,y},{X}} / {p{X},p{X,y}} (alternatives sharing a "
           "prefix of alternatives, either order, optional third alternative, heads /foo/ /Pictures/ ..., tails /x /** .bak) against one "
           "path per alternative including paths only the extra alternative y matches; "
+          "7 fixed + every 10th random case from the escaped-metacharacter family (literals over `ab[]*?{},\\` fully escaped, alone / "
+          "in a group / before a wildcard) against paths containing those literal bytes and paths an unescaped reading would match "
+          "(`/foo/a` for `/foo/\\[a\\]`); "
           "random patterns of 1-4 segments (literals, *, **, prefix*/*suffix, ?, nested groups up to depth 3 with empty "
           "alternatives, escapes of * ? { } , [ ] and backslash, star runs, trailing / and {,/} /** /**/ /**/* endings), each "
           "against paths instantiated from its own rendered variants (with and without trailing slash) and a random path; a "
